@@ -148,8 +148,8 @@ def candidates(text, limit=400):
             return
 
 
-def _q(s, quote):
-    body = json.dumps(s, ensure_ascii=False)[1:-1]
+def _q(s, quote, ascii_only=False):
+    body = json.dumps(s, ensure_ascii=ascii_only or any(0xD800 <= ord(c) <= 0xDFFF for c in s))[1:-1]
     if quote == "'":
         body = body.replace('\\"', '"').replace("'", "\\'")
     return quote + body + quote
@@ -158,6 +158,7 @@ def _q(s, quote):
 def write(obj, style):
     """style: {"kq": '"'|"'"|"" (unquoted identifier keys), "vq": '"'|"'", "tc": bool, "lit": "json"|"py"|"js-undefined"}"""
     kq, vq, tc, lit = style.get("kq", '"'), style.get("vq", '"'), style.get("tc", False), style.get("lit", "json")
+    esc = bool(style.get("ascii"))          # non-ASCII characters written as \uXXXX escapes (surrogate pairs, lone surrogates stay escapes)
     sep = "," if style.get("compact") else ", "
     kv = ":" if style.get("compact") else ": "
     if obj is None:
@@ -170,7 +171,7 @@ def write(obj, style):
         return json.dumps(obj)
     if isinstance(obj, str):
         q = vq if not (vq == "'" and ("'" in obj or '"' in obj or "\\" in obj)) else '"'
-        return _q(obj, q)
+        return _q(obj, q, esc)
     if isinstance(obj, list):
         inner = sep.join(write(v, style) for v in obj)
         return "[" + inner + (sep if tc and obj else "") + "]"
@@ -180,9 +181,9 @@ def write(obj, style):
             if kq == "" and _IDENT.fullmatch(k):
                 ks = k
             elif kq == "'" and not any(c in k for c in "'\"\\"):
-                ks = _q(k, "'")
+                ks = _q(k, "'", esc)
             else:
-                ks = _q(k, '"')
+                ks = _q(k, '"', esc)
             parts.append(ks + kv + write(v, style))
         return "{" + sep.join(parts) + (sep if tc and obj else "") + "}"
     raise TypeError(type(obj))
